@@ -72,7 +72,7 @@ fn type_bits(t: &Type) -> u64 {
 }
 
 pub fn run(ctx: &mut Ctx) {
-    let total = ctx.q(600, 20000);
+    let total = ctx.q(4000, 80000);
     ctx.cases("schedules", total, |ctx, idx| {
         // build a graph with 1-4 key inputs and a set of PRF / PermutationFromPRF nodes
         let c = create_context().unwrap();
@@ -233,7 +233,7 @@ pub fn run(ctx: &mut Ctx) {
     });
 
     // PRNG replay, range, layout
-    let total = ctx.q(400, 12000);
+    let total = ctx.q(3000, 50000);
     ctx.cases("prng", total, |ctx, idx| {
         let seed = ctx.rng.seed16();
         let n_ops = ctx.rng.range(5, 60);
@@ -315,7 +315,7 @@ pub fn run(ctx: &mut Ctx) {
     });
 
     // Random / RandomPermutation nodes through the evaluator: domain + replay by seed
-    let total = ctx.q(300, 8000);
+    let total = ctx.q(2000, 30000);
     ctx.cases("random_nodes", total, |ctx, idx| {
         let c = create_context().unwrap();
         let g = c.create_graph().unwrap();
@@ -367,7 +367,7 @@ pub fn run(ctx: &mut Ctx) {
 
     // statistics
     let mut hist: BTreeMap<String, Vec<u64>> = BTreeMap::new();
-    let blocks = ctx.q(64u64, 1600);
+    let blocks = ctx.q(400u64, 6000);
     let moduli: Vec<u64> = vec![
         (1u64 << 63) + 1,
         3u64 << 62,
